@@ -7,6 +7,7 @@ import (
 	"flag"
 	"fmt"
 	"os"
+	"runtime"
 	"runtime/debug"
 	"sort"
 	"strconv"
@@ -28,6 +29,10 @@ func main() {
 	mutant := flag.String("mutant", "", "internal: analyse one self-test mutant (child process)")
 	flag.Parse()
 	debug.SetGCPercent(400)
+	if os.Getenv("GOMAXPROCS") == "" {
+		// many threads faulting in fresh heap pages contend badly in this sandbox (28 s vs 4 s measured)
+		runtime.GOMAXPROCS(4)
+	}
 
 	if *mutant != "" {
 		m, ok := props.FindMutant(*mutant)
